@@ -717,3 +717,83 @@ def visit_leaf_cases():
     cases.append(core.Case("C06-V/phrase", run_phrase, functions=["luqum.elasticsearch.visitor.ElasticsearchQueryBuilder.visit_phrase",
                                                                   "luqum.elasticsearch.visitor.ElasticsearchQueryBuilder.visit_proximity"]))
     return cases
+
+
+# ------------------------------------------------------------------------------------------------ C05-N  (field step)
+def search_field_table():
+    """F (exhaustive over the table below): one step of visit_search_field - the child is translated once, in a context whose field
+    prefix is the enclosing prefix extended by the dot-separated parts of the name, whose analysed marker says whether that full
+    name is declared not analysed, with the node added to the parents; the result is the child's translation, wrapped in ONE nested
+    clause on the longest declared nested path that the full name reaches beyond the enclosing prefix - unless there is none, or
+    the child's translation already is a nested clause (a nested clause on a deeper level stands on its own in ES)."""
+    from luqum.naming import set_name
+    fails = []
+    n = 0
+    specs = [{"n": {"x": None, "y": None, "m": ["z"]}}, {"a.b": ["c"]}, None]
+    names = ["t", "n", "n.x", "n.m", "n.m.z", "x", "m.z", "m", "z", "nx", "n_m.z", "a", "a.b", "a.b.c", "b.c", "b", "c"]
+    prefixes = [[], ["n"], ["n", "m"], ["a"], ["a", "b"], ["o"]]
+    for spec in specs:
+        npaths = set()
+
+        def walk(d, pre):
+            for k, v in (d or {}).items():
+                p = pre + k.split(".")
+                if v:
+                    npaths.add(".".join(p))
+                    if isinstance(v, dict):
+                        walk(v, p)
+        walk(spec, [])
+        for name in names:
+            for prefix in prefixes:
+                for kind in ("leaf", "must", "must-of-deeper-nested", "nested-deeper", "nested-same"):
+                    for named in (False, True):
+                        n += 1
+                        b = EV.ElasticsearchQueryBuilder(nested_fields=spec, not_analyzed_fields=["n.x", "t"])
+                        expr = T.Word("w")
+                        node = T.SearchField(name, expr)
+                        if named:
+                            set_name(node, "nm")
+                        full = prefix + name.split(".")
+                        cands = [".".join(full[:i]) for i in range(len(prefix) + 1, len(full) + 1)]
+                        want_path = next((p for p in reversed(cands) if p in npaths), None)
+                        A = Leaf("a")
+                        deeper = ".".join(full + ["deeper"])
+                        child = {"leaf": A, "must": ET.EMust(items=[A, Leaf("b")]),
+                                 "must-of-deeper-nested": ET.EMust(items=[ET.ENested(nested_path=deeper, nested_fields=None, items=A),
+                                                                          ET.ENested(nested_path=deeper, nested_fields=None, items=Leaf("b"))]),
+                                 "nested-deeper": ET.ENested(nested_path=".".join(full + ["deeper"]), nested_fields=None, items=A),
+                                 "nested-same": ET.ENested(nested_path=want_path or "elsewhere", nested_fields=None, items=A)}[kind]
+                        seen = []
+
+                        def stub(nd, ctx, child=child, seen=seen):
+                            seen.append((nd, dict(ctx)))
+                            return iter([child])
+                        b.visit_iter = stub
+                        ctx0 = {"parents": ("P",), "name": "inherited"}
+                        if prefix:
+                            ctx0[b.CONTEXT_FIELD_PREFIX] = list(prefix)
+                        snap = repr(ctx0)
+                        try:
+                            out = list(b.visit_search_field(node, ctx0))
+                        except Exception as e:  # noqa: BLE001
+                            fails.append({"id": "%s|%s|%s|%s" % (spec, name, prefix, kind), "raised": repr(e), "native_confirmed": True})
+                            continue
+                        ok = len(seen) == 1 and seen[0][0] is expr and len(out) == 1 and repr(ctx0) == snap
+                        if ok:
+                            cctx = seen[0][1]
+                            ok = (cctx.get(b.CONTEXT_FIELD_PREFIX) == full and cctx.get(b.CONTEXT_ANALYZE_MARKER) == (".".join(full) not in ("n.x", "t"))
+                                  and cctx.get("parents") == ("P", node) and cctx.get("name") == ("nm" if named else "inherited"))
+                        if ok:
+                            r = out[0]
+                            if want_path is None or isinstance(child, ET.ENested):
+                                ok = r is child
+                            else:
+                                ok = (isinstance(r, ET.ENested) and r.nested_path == want_path and r.items is child
+                                      and getattr(r, "_name", None) == ("nm" if named else "inherited"))
+                        if not ok:
+                            fails.append({"id": "%s|%s|%s|%s|%s" % (spec, name, prefix, kind, named), "expected_nested_path": want_path,
+                                          "got": repr(out)[:200], "child_context": repr(seen[0][1])[:300] if seen else None, "native_confirmed": True})
+    return {"ok": not fails, "checked": n, "failures": fails[:10], "exhaustive": True,
+            "samples": [{"spec": specs[0], "name": "m.z", "prefix": ["n"], "nested_path": "n.m"}],
+            "detail": "3 nested specs x 17 field names (incl. names that extend a nested path without a dot) x 6 enclosing prefixes x 5 kinds of "
+                      "child translation x named / unnamed"}
